@@ -197,3 +197,13 @@ package schema
 //@   modifies nothing
 //@   requires wferr(e)
 //@   ensures result != nil
+
+// ---- C10 proof part: how a flat operand/operator sequence becomes a rewrite tree
+// (the meaning of parsed expressions against the grammar is NOT proved; /verif/extra/C10.sh
+// is a bounded stand-in for it)
+//@ func buildExpression
+//@   props C10 C12
+//@   noframe
+//@   requires forall i in 0..len(operands) :: operands[i] != nil
+//@   ensures[C10] empty-is-nil: len(operands) == 0 <==> result == nil
+//@   loop 1 invariant (isnil(group) || fresh(group)) && len(group) >= 1 && (forall k in 0..len(group) :: group[k] != nil) && (forall m in 0..len(operands) :: operands[m] != nil)
